@@ -16,6 +16,29 @@ import (
 type c10Case struct {
 	Doc string
 	Map bool `json:",omitempty"` // decode as a variable map instead of a single value
+	// After: this document was decoded (and mostly rejected) immediately before, in the same goroutine: decoding is a function of
+	// the document alone, whatever the decoder saw before
+	After string `json:",omitempty"`
+}
+
+// documents that fail half-way, and sparse documents that leave fields out
+var c10Rejected = []string{
+	`{"t":6,"v":{"list":[{"t":0,"v":1},{"t":2,"v":"s"},5]}}`, `{"t":6,"v":{"list":[{"t":0,"v":1},null]}}`, `{"t":6,"v":{"list":[{"t":6,"v":{"list":[{"t":0,"v":7},"x"]}}]}}`, `{"t":6,"v":{"list":[{"t":0,"v":1},{"t":99}]}}`,
+	`{"t":6,"v":{"list":[{"t":0,"v":1},{"t":2,"v":"s"}`, `{"t":6,"v":{"list":"str"}}`, `{"t":7,"v":{"dict":{"a":{"t":0,"v":1},"b":5}}}`, `{"t":7,"v":{"dict":{"a":{"t":0,"v":1},"b":{"t":99}}}}`, `{"t":7,"v":{"dict":{"a":{"t":0,"v":1}`,
+	`{"t":5,"v":{"expr":"1+1","attrs":{"a":{"t":0,"v":1},"b":5}}}`, `{"t":5,"v":{"expr":5,"attrs":{"a":{"t":0,"v":1}}}}`, `{"t":8,"v":{"expr":"a+b","name":"g","params":["a","b",5]}}`, `{"t":8,"v":{"expr":"a","name":"g","params":"s"}}`,
+	`{"t":9,"v":{"name":"nosuch"}}`, `{"t":2,"v":5}`, `{"t":0,"v":"s"}`, `{"t":1,"v":"s"}`, `{"t":0,"v":1e999}`, `[`, `{"t":6,"v":{"list":[{"t":0,"v":1},{"t":0,"v":2},{"t":0,"v":3},{"t":0,"v":"bad"}]}}`,
+}
+var c10Sparse = []string{
+	`{"t":6}`, `{"t":6,"v":{}}`, `{"t":6,"v":null}`, `{"t":6,"v":{"list":null}}`, `{"t":6,"v":{"list":[]}}`, `{"t":7}`, `{"t":7,"v":{}}`, `{"t":7,"v":null}`, `{"t":7,"v":{"dict":null}}`, `{"t":7,"v":{"dict":{}}}`,
+	`{"t":5}`, `{"t":5,"v":{}}`, `{"t":5,"v":{"expr":"1"}}`, `{"t":8}`, `{"t":8,"v":{}}`, `{"t":8,"v":{"expr":"1"}}`, `{"t":8,"v":{"expr":"1","name":"g"}}`, `{"t":9}`, `{"t":9,"v":{}}`, `{"t":2}`, `{"t":0}`, `{"t":1}`, `{"t":4}`,
+	`{"t":6,"v":{"list":[{"t":0,"v":9}]}}`, `{"t":7,"v":{"dict":{"z":{"t":0,"v":9}}}}`, `{"t":2,"v":"ok"}`,
+}
+// values of every kind in several sizes, for comparisons against the decoded value (both operand orders)
+var c10Peers = []string{
+	`{"t":8,"v":{"expr":"1","name":"g"}}`, `{"t":8,"v":{"expr":"1","name":"g","params":[]}}`, `{"t":8,"v":{"expr":"1","name":"g","params":["a"]}}`, `{"t":8,"v":{"expr":"1","name":"g","params":["a","b","c"]}}`, `{"t":8,"v":{"expr":"a","name":"g","params":["a"]}}`,
+	`{"t":8,"v":{"expr":"a +","name":"f","params":null}}`, `{"t":8,"v":{"expr":"a +","name":"f","params":["a","b"]}}`, `{"t":8,"v":{"expr":"a+1","name":"g","params":["a"]}}`, `{"t":8,"v":{"expr":"a+1","name":"g","params":["a","b"]}}`, `{"t":8,"v":{"expr":"a+1","name":"g"}}`,
+	`{"t":6,"v":{"list":[]}}`, `{"t":6,"v":{"list":[{"t":0,"v":1}]}}`, `{"t":6,"v":{"list":[{"t":0,"v":1},{"t":2,"v":"s"}]}}`, `{"t":6,"v":{"list":[{"t":0,"v":1},{"t":2,"v":"s"},{"t":4}]}}`, `{"t":7,"v":{"dict":{}}}`, `{"t":7,"v":{"dict":{"k":{"t":0,"v":1}}}}`, `{"t":7,"v":{"dict":{"k":{"t":0,"v":1},"j":{"t":4}}}}`,
+	`{"t":5,"v":{"expr":"1+1"}}`, `{"t":5,"v":{"expr":"1+1","attrs":{"a":{"t":0,"v":1}}}}`, `{"t":5,"v":{"expr":"1+1","attrs":{"a":{"t":0,"v":1},"b":{"t":4}}}}`, `{"t":5,"v":{"expr":"1+x","attrs":{"a":{"t":0,"v":1}}}}`, `{"t":9,"v":{"name":"ceil"}}`, `{"t":9,"v":{"name":"floor"}}`, `{"t":0,"v":12}`, `{"t":1,"v":1.5}`, `{"t":2,"v":"a\"b"}`, `{"t":4}`,
 }
 
 var c10SubDocs = []string{
@@ -124,6 +147,12 @@ func c10Enumerate(tier string, seed int64, emit func(string, any)) {
 	}
 	one("native", `{"t":9,"v":{}}`)
 	one("native", `{"t":10,"v":{}}`)
+	// decoding is a function of the document alone: every sparse document right after every half-rejected one
+	for _, a := range c10Rejected {
+		for _, d := range c10Sparse {
+			emit("document after a rejected document", c10Case{Doc: d, After: a})
+		}
+	}
 	// truncations and byte edits of valid documents
 	valid := []string{
 		`{"t":0,"v":12}`, `{"t":1,"v":1.5}`, `{"t":2,"v":"a\"b"}`, `{"t":4}`, `{"t":5,"v":{"expr":"1+x","attrs":{"a":{"t":0,"v":1}}}}`,
@@ -199,6 +228,28 @@ func c10Run(raw json.RawMessage) harn.Result {
 			}
 		}
 	}
+	truth, truthErr := "", false
+	if c.After != "" {
+		// reference: the same document decoded right after one successful decode of every container kind (which leaves any
+		// decoder-internal scratch state clean), then the rejected document, then the document under test
+		for _, clean := range []string{`{"t":6,"v":{"list":[{"t":0,"v":1}]}}`, `{"t":7,"v":{"dict":{"k":{"t":0,"v":1}}}}`, `{"t":5,"v":{"expr":"1","attrs":{"a":{"t":0,"v":1}}}}`, `{"t":8,"v":{"expr":"a","name":"g","params":["a"]}}`} {
+			_, _ = ds.VMValueFromJSON([]byte(clean))
+		}
+		if site, p := harn.Guard(func() {
+			w, err := ds.VMValueFromJSON([]byte(c.Doc))
+			truthErr = err != nil
+			if err == nil && w != nil {
+				truth = drv.Canon(w)
+			}
+		}); p {
+			viol(site, "panic while decoding")
+			return res
+		}
+		if site, p := harn.Guard(func() { _, _ = ds.VMValueFromJSON([]byte(c.After)) }); p {
+			viol(site, "panic while decoding the preceding document "+c.After)
+			return res
+		}
+	}
 	site, p := harn.Guard(func() {
 		if c.Map {
 			m := &ds.ValueMap{}
@@ -214,6 +265,18 @@ func c10Run(raw json.RawMessage) harn.Result {
 		viol(site, "panic while decoding")
 		res.Outcome = "panic"
 		return res
+	}
+	if c.After != "" {
+		got := ""
+		if derr == nil && v != nil {
+			if site, p := harn.Guard(func() { got = drv.Canon(v) }); p {
+				viol(site, fmt.Sprintf("panic rendering the value decoded right after %s", c.After))
+				return res
+			}
+		}
+		if (derr != nil) != truthErr || got != truth {
+			viol("C10:decode-depends-on-earlier-document", fmt.Sprintf("decoded right after %s it gives (error=%v, %s); decoded on its own (error=%v, %s)", c.After, derr != nil, got, truthErr, truth))
+		}
 	}
 	if derr != nil {
 		res.Outcome = "decode-error"
@@ -246,6 +309,16 @@ func c10Run(raw json.RawMessage) harn.Result {
 		for _, o := range []*ds.VMValue{ds.NewIntVal(1), ds.NewStrVal("s"), ds.NewNullVal(), ds.NewArrayVal(), ds.NewDictVal(nil).V(), ds.NewComputedVal("1")} {
 			_ = ds.ValueEqual(v, o, true)
 			_ = ds.ValueEqual(o, v, true)
+		}
+	})
+	step("ValueEqual(peers)", func() {
+		for _, d := range c10Peers {
+			if o, err := ds.VMValueFromJSON([]byte(d)); err == nil && o != nil {
+				_ = ds.ValueEqual(v, o, true)
+				_ = ds.ValueEqual(o, v, true)
+				_ = ds.ValueEqual(v, o, false)
+				_ = ds.ValueEqual(ds.NewArrayVal(v, o), ds.NewArrayVal(o, v), true)
+			}
 		}
 	})
 	step("AsDictKey", func() { _, _ = v.AsDictKey() })
